@@ -525,4 +525,4 @@ def _is_dword(P, ty):
     """the double word (u128 with 64-bit words, u64 with 32-bit words); usize index arithmetic is excluded by the caller"""
     return ty in ("u128", "u64")
 LEVEL = LEVEL + ' (R13.7) every product computed by mul_normalized / sqr_normalized passes the division by the modulus or the guarded conditional subtraction before it is returned.'
-
+TECHNIQUE = TECHNIQUE + '; must-pass-through of a reduction between every raw product and the return; inclusive-comparison rule for conditional reductions'
